@@ -24,6 +24,12 @@ Theorem C03_src_copy_constructor_complete : copy_ok src_copy_cfg = true.
 Proof. vm_compute. reflexivity. Qed.
 Print Assumptions C03_src_copy_constructor_complete.
 
+(* while the own thread runs, Logger::processMessage never flushes the sinks from the calling thread (its fatal branch is
+   guarded by !ownThreadIsRunning()): no sink entry point is reached on a producer thread *)
+Theorem C03_src_no_caller_flush_while_worker_runs : src_caller_flushes_while_worker_runs = false.
+Proof. vm_compute. reflexivity. Qed.
+Print Assumptions C03_src_no_caller_flush_while_worker_runs.
+
 (* 1. the copy handed to the worker shows a sink exactly what the original shows: type, text, file, line, function,
    category (null == ""), time, steady time, thread id, formatted text, attributes — whatever the worker thread's
    own clock / thread id / the caller's freed buffers ([amb]) contain at that moment *)
